@@ -387,16 +387,28 @@ def chk_purity(T, v, M, rng):
                 if j != skip and c_ is not None and c_.isValue:
                     r_.setComponentByPosition(j, c_)
             return r_
-        def snap_nd(o_):
-            # a DEFAULT member holding its default value and an absent one are the same abstract content
+        def snap_nd(o_, T_=None):
+            # abstract content: a DEFAULT member holding its default value and an absent one are the same, at every depth
+            T_ = T_ or T
             s_ = snapshot(o_)
+            if T_['k'] not in ('SEQUENCE', 'SET') or s_[0] != 'rec':
+                return s_
             comps_ = list(s_[3])
-            for j, f_ in enumerate(T['fields']):
-                if isinstance(f_[2], (list, tuple)) and comps_[j] is not None:
-                    c_ = o_.getComponentByPosition(j, instantiate=False, default=None)
-                    if c_ is not None and c_ == o_.componentType[j].asn1Object:
-                        comps_[j] = None
+            for j_, f_ in enumerate(T_['fields']):
+                if comps_[j_] is None:
+                    continue
+                c_ = o_.getComponentByPosition(j_, instantiate=False, default=None)
+                if c_ is None:
+                    comps_[j_] = None
+                elif isinstance(f_[2], (list, tuple)) and c_ == o_.componentType[j_].asn1Object:
+                    comps_[j_] = None
+                elif f_[1]['k'] in ('SEQUENCE', 'SET'):
+                    comps_[j_] = snap_nd(c_, f_[1])
             return s_[:3] + (tuple(comps_),)
+
+        def born(T_):
+            # a record type whose freshly made object counts as a value: every mandatory member is such a record itself
+            return T_['k'] in ('SEQUENCE', 'SET') and all(born(ff[1]) for ff in T_['fields'] if ff[2] == 'req')
         for skip in [None] + mand[:3]:
             for name, f in (('ber', be.encode), ('cer', ce.encode), ('der', de.encode), ('native', nate__.encode)):
                 n += 1
@@ -428,9 +440,7 @@ def chk_purity(T, v, M, rng):
                         name, how, 'it became a value' if after[2] and not before[2] else 'members differ'),
                         incomplete_became_value=bool(after[2] and not before[2]),
                         born_value_member=all(
-                            before[3][j] is None and T['fields'][j][2] == 'req' and
-                            T['fields'][j][1]['k'] in ('SEQUENCE', 'SET') and
-                            all(ff[2] != 'req' for ff in T['fields'][j][1]['fields'])
+                            before[3][j] is None and T['fields'][j][2] == 'req' and born(T['fields'][j][1])
                             for j in range(len(T['fields'])) if before[3][j] != after[3][j])))
     # 2. decoding leaves the guiding type alone; results are independent objects
     n += 1
